@@ -29,17 +29,31 @@
    Block's gid differs from the gid of every other group among the top-level items of the
    SAME statement.  [build] gives gid 1 to every Block and gid 0 to every other group, and no
    statement built here has two Blocks among its top-level items: the only constructs that
-   put a Block into a statement are a func literal, if, for, switch, a block statement, a
-   clause and a func declaration - one Block each - and an expression is spliced into a
+   put a Block into a statement are a func literal, if, for, switch, type switch, select, a block
+   statement, a clause and a func or method declaration - one Block each - and an expression is spliced into a
    statement only as the HEAD of a chain (x.Call(..), x.Index(..), x.Dot(..), x.Op(..)), every
    other operand being a nested statement of its own.  Hence each Block has its own gid within
-   its statement, as with pointers.  (A counter threaded through [build] would give globally
+   its statement, as with pointers.  The same holds of the constructs added later (a method
+   declaration, a labeled statement, a send statement, a type assertion: the labeled statement
+   is a nested statement, the receiver a Params group with gid 0).  (A counter threaded through [build] would give globally
    distinct numbers; the renderer never compares gids across statements.)
+
+   KEYED COMPOSITE LITERALS AND THE DICT.  EKeyed t pairs (`T{k1: v1, k2: v2}`) is built as
+   T.Values(Dict{k1: v1, ..}).  A Dict is a Go map; jennifer writes its pairs sorted by the text
+   the keys render to.  In the model a Dict is the list of its pairs in iteration order; [build]
+   lists them in source order, and [cexpr] prints them sorted by the canonical text of the key
+   ([sort_keyed], stable), in the Dict layout ([keyed_body]).  So canon (EKeyed t pairs) is the
+   source program up to the order of the keyed elements.
+
+   TYPES.  [ty] is a nested inductive (lists of fields / parameters / results / methods):
+   induction over it is [ty_ind'].  Struct(..) and Interface(..) are multi-line groups (one
+   field / method per line).  The builders and printers of signatures take the function on
+   types as a parameter ([bsig_with], [csig_with]) so that [bty] / [cty] can recurse through them.
 
    SUPERSET.  Some trees of these types are not Go (an `else` followed by a `return`, an
    `if` whose init statement is a `for`, the identifier ""): the theorems do not need to
    exclude them - they state what is written for every tree. *)
-From Jen Require Import Base.Bytes Base.Num Model.Code Model.Naming Model.Render Model.FileRender Model.Exec.
+From Jen Require Import Base.Bytes Base.Num Base.Sort Model.Code Model.Naming Model.Render Model.FileRender Model.Exec.
 From Jen Require Import Gen.Tables.
 Local Open Scope N_scope.
 
@@ -75,15 +89,34 @@ Definition asgop_text (o : asgop) : str :=
   | AAndNot => S "&^="
   end.
 
-(* Type = TypeName | PointerType | SliceType | MapType *)
+(* channel direction: chan T | <-chan T | chan<- T *)
+Inductive chandir := CBoth | CRecv | CSend.
+
+(* Type = TypeName | PointerType | SliceType | MapType | ArrayType | ChannelType | FunctionType |
+          StructType | InterfaceType; and, as in go/ast, the `...T` of a variadic final parameter
+   is a type node of its own (TEllipsis; Go accepts it only there) *)
 Inductive ty :=
 | TName (n : str)                    (* identifier *)
 | TPtr (t : ty)                      (* "*" BaseType *)
 | TSlice (t : ty)                    (* "[" "]" ElementType *)
-| TMap (k v : ty).                   (* "map" "[" KeyType "]" ElementType *)
+| TMap (k v : ty)                    (* "map" "[" KeyType "]" ElementType *)
+| TArray (n : Z) (t : ty)            (* "[" ArrayLength "]" ElementType, the length an int_lit *)
+| TChan (d : chandir) (t : ty)       (* ( "chan" | "chan" "<-" | "<-" "chan" ) ElementType *)
+| TEllipsis (t : ty)                 (* "..." Type *)
+| TFunc (ps : list (str * ty)) (res : list ty)       (* "func" Parameters [ Result ] *)
+| TStruct (fs : list (str * ty * list (str * str)))   (* "struct" "{" { identifier Type [ Tag ] ";" } "}"; the tag a
+                                                        conventional one: key:"value" pairs ([] = no tag) *)
+| TIface (ms : list (str * (list (str * ty) * list ty))).   (* "interface" "{" { MethodName Signature ";" } "}" *)
 
 (* ParameterDecl = identifier Type *)
 Definition param := (str * ty)%type.
+(* FieldDecl = identifier Type [ Tag ], the tag given as the map handed to Tag(..); [] = no tag *)
+Definition field := (str * ty * list (str * str))%type.
+Definition fd_name (f : field) : str := fst (fst f).
+Definition fd_ty (f : field) : ty := snd (fst f).
+Definition fd_tag (f : field) : list (str * str) := snd f.
+(* Signature = Parameters [ Result ], Result = Type | "(" Type { "," Type } ")" *)
+Definition sig := (list param * list ty)%type.
 
 Inductive expr :=
 | EId (n : str)                                   (* identifier *)
@@ -100,7 +133,9 @@ Inductive expr :=
 | ESel (x : expr) (sel : str)                     (* PrimaryExpr "." identifier *)
 | EParen (x : expr)                               (* "(" Expression ")" *)
 | EComp (t : ty) (elts : list expr)               (* LiteralType "{" [ ElementList ] "}" *)
-| EFunc (ps : list param) (res : option ty) (body : list stmt)   (* "func" Signature FunctionBody *)
+| EKeyed (t : ty) (pairs : list (expr * expr))    (* LiteralType "{" [ Key ":" Element { "," Key ":" Element } [ "," ] ] "}" *)
+| EFunc (ps : list param) (res : list ty) (body : list stmt)     (* "func" Signature FunctionBody *)
+| EAssert (x : expr) (t : ty)                     (* PrimaryExpr "." "(" Type ")" *)
 with stmt :=
 | SExpr (e : expr)                                (* ExpressionStmt *)
 | SAssign (l : expr) (ls : list expr) (op : asgop) (r : expr) (rs : list expr)
@@ -123,16 +158,28 @@ with stmt :=
 | SGo (f : expr) (args : list expr) (ddd : bool)  (* "go" Expression, the expression being a call *)
 | SDefer (f : expr) (args : list expr) (ddd : bool)  (* "defer" Expression, the expression being a call *)
 | SVar (x : str) (t : option ty) (e : option expr)   (* "var" identifier [ Type ] [ "=" Expression ] *)
+| SLabeled (l : str) (s : stmt)                   (* Label ":" Statement *)
+| SGoto (l : str)                                 (* "goto" Label *)
+| SFallthrough                                    (* "fallthrough" *)
+| SSend (c v : expr)                              (* Channel "<-" Expression *)
+| SSelect (cls : list clause)                     (* "select" "{" { CommClause } "}" *)
+| STypeSwitch (init : option stmt) (bind : option str) (x : expr) (cls : list clause)
+                                                  (* "switch" [ SimpleStmt ";" ] [ identifier ":=" ] PrimaryExpr "." "(" "type" ")"
+                                                     "{" { TypeCaseClause } "}" *)
 with clause :=
 | CCase (e : expr) (es : list expr) (body : list stmt)   (* "case" ExpressionList ":" StatementList *)
-| CDefault (body : list stmt).                           (* "default" ":" StatementList *)
+| CDefault (body : list stmt)                            (* "default" ":" StatementList *)
+| CComm (s : stmt) (body : list stmt)                    (* "case" ( SendStmt | RecvStmt ) ":" StatementList *)
+| CType (t : ty) (ts : list ty) (body : list stmt).      (* "case" Type { "," Type } ":" StatementList *)
 
 (* ValueSpec / ConstSpec = identifier [ Type ] [ "=" Expression ] *)
 Definition spec := (str * option ty * option expr)%type.
 
 Inductive decl :=
-| DFunc (name : str) (ps : list param) (res : option ty) (body : list stmt)
+| DFunc (name : str) (ps : list param) (res : list ty) (body : list stmt)
                                                   (* "func" FunctionName Signature FunctionBody *)
+| DMethod (recv : param) (name : str) (ps : list param) (res : list ty) (body : list stmt)
+                                                  (* "func" "(" identifier Type ")" MethodName Signature FunctionBody *)
 | DVars (specs : list spec)                       (* "var" "(" { VarSpec ";" } ")" *)
 | DConsts (specs : list spec)                     (* "const" "(" { ConstSpec ";" } ")" *)
 | DType (name : str) (t : ty).                    (* "type" identifier Type *)
@@ -150,6 +197,71 @@ Definition all_list {A} (P : A -> Prop) (f : forall a, P a) : forall l, Forall P
 
 Definition all_opt {A} (P : A -> Prop) (f : forall a, P a) (o : option A) : OptP P o :=
   match o with Some a => f a | None => I end.
+
+(* both components of every pair *)
+Definition PairP {A} (P : A -> Prop) (kv : A * A) : Prop := P (fst kv) /\ P (snd kv).
+
+Definition all_pairs {A} (P : A -> Prop) (f : forall a, P a) : forall l, Forall (PairP P) l :=
+  fix go (l : list (A * A)) : Forall (PairP P) l :=
+    match l with
+    | [] => Forall_nil (PairP P)
+    | kv :: r =>
+        Forall_cons kv (match kv as p return PairP P p with (k, v) => conj (f k) (f v) end) (go r)
+    end.
+
+Definition all_snd {A B} (P : B -> Prop) (f : forall b, P b) : forall l, Forall (fun x : A * B => P (snd x)) l :=
+  fix go (l : list (A * B)) : Forall (fun x => P (snd x)) l :=
+    match l with
+    | [] => Forall_nil _
+    | x :: r => Forall_cons x (f (snd x)) (go r)
+    end.
+
+(* induction over types, with the nested lists exposed *)
+Definition ParamsP (P : ty -> Prop) (ps : list (str * ty)) : Prop := Forall (fun p => P (snd p)) ps.
+Definition SigP (P : ty -> Prop) (sg : sig) : Prop := ParamsP P (fst sg) /\ Forall P (snd sg).
+Definition FieldsP (P : ty -> Prop) (fs : list field) : Prop := Forall (fun f => P (fd_ty f)) fs.
+
+Definition all_fields (P : ty -> Prop) (f : forall b, P b) : forall l, FieldsP P l :=
+  fix go (l : list field) : Forall (fun x => P (fd_ty x)) l :=
+    match l with
+    | [] => Forall_nil _
+    | x :: r => Forall_cons x (f (snd (fst x))) (go r)
+    end.
+
+Section TyInd.
+  Variable P : ty -> Prop.
+  Hypothesis HName : forall n, P (TName n).
+  Hypothesis HPtr : forall t, P t -> P (TPtr t).
+  Hypothesis HSlice : forall t, P t -> P (TSlice t).
+  Hypothesis HMap : forall k v, P k -> P v -> P (TMap k v).
+  Hypothesis HArray : forall n t, P t -> P (TArray n t).
+  Hypothesis HChan : forall d t, P t -> P (TChan d t).
+  Hypothesis HEllipsis : forall t, P t -> P (TEllipsis t).
+  Hypothesis HFunc : forall ps res, ParamsP P ps -> Forall P res -> P (TFunc ps res).
+  Hypothesis HStruct : forall fs, FieldsP P fs -> P (TStruct fs).
+  Hypothesis HIface : forall ms, Forall (fun m => SigP P (snd m)) ms -> P (TIface ms).
+
+  Fixpoint ty_ind' (t : ty) : P t :=
+    match t with
+    | TName n => HName n
+    | TPtr t => HPtr t (ty_ind' t)
+    | TSlice t => HSlice t (ty_ind' t)
+    | TMap k v => HMap k v (ty_ind' k) (ty_ind' v)
+    | TArray n t => HArray n t (ty_ind' t)
+    | TChan d t => HChan d t (ty_ind' t)
+    | TEllipsis t => HEllipsis t (ty_ind' t)
+    | TFunc ps res => HFunc ps res (all_snd P ty_ind' ps) (all_list P ty_ind' res)
+    | TStruct fs => HStruct fs (all_fields P ty_ind' fs)
+    | TIface ms =>
+        HIface ms
+          ((fix go (l : list (str * sig)) : Forall (fun m => SigP P (snd m)) l :=
+              match l with
+              | [] => Forall_nil _
+              | m :: r =>
+                  Forall_cons m (conj (all_snd P ty_ind' (fst (snd m))) (all_list P ty_ind' (snd (snd m)))) (go r)
+              end) ms)
+    end.
+End TyInd.
 
 Section MiniInd.
   Variable Pe : expr -> Prop.
@@ -169,7 +281,9 @@ Section MiniInd.
   Hypothesis HSel : forall x sel, Pe x -> Pe (ESel x sel).
   Hypothesis HParen : forall x, Pe x -> Pe (EParen x).
   Hypothesis HComp : forall t elts, Forall Pe elts -> Pe (EComp t elts).
+  Hypothesis HKeyed : forall t pairs, Forall (PairP Pe) pairs -> Pe (EKeyed t pairs).
   Hypothesis HFunc : forall ps res body, Forall Ps body -> Pe (EFunc ps res body).
+  Hypothesis HAssert : forall x t, Pe x -> Pe (EAssert x t).
   Hypothesis HSExpr : forall e, Pe e -> Ps (SExpr e).
   Hypothesis HSAssign : forall l ls op r rs, Pe l -> Forall Pe ls -> Pe r -> Forall Pe rs -> Ps (SAssign l ls op r rs).
   Hypothesis HSIncDec : forall x inc, Pe x -> Ps (SIncDec x inc).
@@ -189,8 +303,16 @@ Section MiniInd.
   Hypothesis HSGo : forall f args ddd, Pe f -> Forall Pe args -> Ps (SGo f args ddd).
   Hypothesis HSDefer : forall f args ddd, Pe f -> Forall Pe args -> Ps (SDefer f args ddd).
   Hypothesis HSVar : forall x t e, OptP Pe e -> Ps (SVar x t e).
+  Hypothesis HSLabeled : forall l s, Ps s -> Ps (SLabeled l s).
+  Hypothesis HSGoto : forall l, Ps (SGoto l).
+  Hypothesis HSFallthrough : Ps SFallthrough.
+  Hypothesis HSSend : forall c v, Pe c -> Pe v -> Ps (SSend c v).
+  Hypothesis HSSelect : forall cls, Forall Pc cls -> Ps (SSelect cls).
+  Hypothesis HSTypeSwitch : forall init bind x cls, OptP Ps init -> Pe x -> Forall Pc cls -> Ps (STypeSwitch init bind x cls).
   Hypothesis HCCase : forall e es body, Pe e -> Forall Pe es -> Forall Ps body -> Pc (CCase e es body).
   Hypothesis HCDefault : forall body, Forall Ps body -> Pc (CDefault body).
+  Hypothesis HCComm : forall s body, Ps s -> Forall Ps body -> Pc (CComm s body).
+  Hypothesis HCType : forall t ts body, Forall Ps body -> Pc (CType t ts body).
 
   Fixpoint expr_ind' (e : expr) : Pe e :=
     match e with
@@ -209,7 +331,9 @@ Section MiniInd.
     | ESel x sel => HSel x sel (expr_ind' x)
     | EParen x => HParen x (expr_ind' x)
     | EComp t elts => HComp t elts (all_list Pe expr_ind' elts)
+    | EKeyed t pairs => HKeyed t pairs (all_pairs Pe expr_ind' pairs)
     | EFunc ps res body => HFunc ps res body (all_list Ps stmt_ind' body)
+    | EAssert x t => HAssert x t (expr_ind' x)
     end
   with stmt_ind' (s : stmt) : Ps s :=
     match s with
@@ -236,11 +360,20 @@ Section MiniInd.
     | SGo f args ddd => HSGo f args ddd (expr_ind' f) (all_list Pe expr_ind' args)
     | SDefer f args ddd => HSDefer f args ddd (expr_ind' f) (all_list Pe expr_ind' args)
     | SVar x t e => HSVar x t e (all_opt Pe expr_ind' e)
+    | SLabeled l s => HSLabeled l s (stmt_ind' s)
+    | SGoto l => HSGoto l
+    | SFallthrough => HSFallthrough
+    | SSend c v => HSSend c v (expr_ind' c) (expr_ind' v)
+    | SSelect cls => HSSelect cls (all_list Pc clause_ind' cls)
+    | STypeSwitch init bind x cls =>
+        HSTypeSwitch init bind x cls (all_opt Ps stmt_ind' init) (expr_ind' x) (all_list Pc clause_ind' cls)
     end
   with clause_ind' (c : clause) : Pc c :=
     match c with
     | CCase e es body => HCCase e es body (expr_ind' e) (all_list Pe expr_ind' es) (all_list Ps stmt_ind' body)
     | CDefault body => HCDefault body (all_list Ps stmt_ind' body)
+    | CComm s body => HCComm s body (stmt_ind' s) (all_list Ps stmt_ind' body)
+    | CType t ts body => HCType t ts body (all_list Ps stmt_ind' body)
     end.
 
   Lemma mini_ind : (forall e, Pe e) /\ (forall s, Ps s) /\ (forall c, Pc c).
@@ -278,7 +411,10 @@ Definition expected_groups : list (str * (str * str * str * str * bool)) := [
   (S "Switch", (S "switch", S "switch ", S "",  S ";", false));
   (S "Case",   (S "case",   S "case ",   S ":", S ",", false));
   (S "Block",  (S "block",  S "{",       S "}", S "",  true));
-  (S "Defs",   (S "defs",   S "(",       S ")", S "",  true))
+  (S "Defs",   (S "defs",   S "(",       S ")", S "",  true));
+  (S "Struct", (S "struct", S "struct{", S "}", S "",  true));
+  (S "Interface", (S "interface", S "interface{", S "}", S "", true));
+  (S "Assert", (S "assert", S ".(",      S ")", S "",  false))
 ].
 
 (* method, token *)
@@ -287,7 +423,9 @@ Definition expected_tokens : list (str * token) := [
   (S "Func", TkText (S "func")); (S "Else", TkText (S "else")); (S "Default", TkText (S "default"));
   (S "Break", TkText (S "break")); (S "Continue", TkText (S "continue")); (S "Go", TkText (S "go"));
   (S "Defer", TkText (S "defer")); (S "Var", TkText (S "var")); (S "Const", TkText (S "const"));
-  (S "Type", TkText (S "type")); (S "Range", TkText (S "range"))
+  (S "Type", TkText (S "type")); (S "Range", TkText (S "range"));
+  (S "Chan", TkText (S "chan")); (S "Goto", TkText (S "goto")); (S "Fallthrough", TkText (S "fallthrough"));
+  (S "Select", TkText (S "select"))
 ].
 
 Definition group_row_ok (e : str * (str * str * str * str * bool)) : bool :=
@@ -331,6 +469,9 @@ Definition gSwitch := group_of (S "Switch").
 Definition gCase := group_of (S "Case").
 Definition gBlock := group_of (S "Block").
 Definition gDefs := group_of (S "Defs").
+Definition gStruct := group_of (S "Struct").
+Definition gInterface := group_of (S "Interface").
+Definition gAssert := group_of (S "Assert").
 
 Definition id (n : str) : code := CTok (TkId n).          (* Id(n) *)
 Definition op (s : str) : code := CTok (TkText s).        (* Op(s) *)
@@ -356,17 +497,49 @@ Fixpoint on_last {A} (f : A -> A) (l : list A) : list A :=
 Definition call_args (ddd : bool) (args : list (list code)) : list code :=
   map CStmt (if ddd then on_last (fun l => l ++ [op (S "...")]) args else args).
 
+(* ---- signatures, over the builder of types (the recursion of [bty] goes through them) *)
+Section BSig.
+  Variable rec : ty -> list code.
+  (* Id(n).Add(T): a parameter, a field *)
+  Definition bparam_with (p : param) : code := CStmt [id (fst p); CStmt (rec (snd p))].
+  (* Id(n).Add(T) / Id(n).Add(T).Tag(kvs): a field of a struct *)
+  Definition bfield_with (f : field) : code :=
+    CStmt ([id (fd_name f); CStmt (rec (fd_ty f))] ++ match fd_tag f with [] => [] | kvs => [CTag kvs] end).
+  (* Params(ps..) *)
+  Definition bparams_with (ps : list param) : code := gParams 0 (map bparam_with ps).
+  (* the result: nothing, .Add(T), or .Params(T1, T2..) for several *)
+  Definition bresults_with (res : list ty) : list code :=
+    match res with
+    | [] => []
+    | [t] => [CStmt (rec t)]
+    | _ => [gParams 0 (map (fun t => CStmt (rec t)) res)]
+    end.
+  (* Params(ps..) and the result *)
+  Definition bsig_with (sg : sig) : list code := bparams_with (fst sg) :: bresults_with (snd sg).
+End BSig.
+
 Fixpoint bty (t : ty) : list code :=
   match t with
   | TName n => [id n]                                      (* Id(n) *)
   | TPtr t => [op (S "*"); CStmt (bty t)]                  (* Op("*").Add(T) *)
   | TSlice t => [gIndex 0 []; CStmt (bty t)]               (* Index().Add(T) *)
   | TMap k v => [gMap 0 [CStmt (bty k)]; CStmt (bty v)]    (* Map(K).Add(V) *)
+  | TArray n t => [gIndex 0 [CStmt [CTok (TkLit (LInt n))]]; CStmt (bty t)]     (* Index(Lit(n)).Add(T) *)
+  | TChan CBoth t => [kw (S "Chan"); CStmt (bty t)]                  (* Chan().Add(T) *)
+  | TChan CRecv t => [op (S "<-"); kw (S "Chan"); CStmt (bty t)]     (* Op("<-").Chan().Add(T) *)
+  | TChan CSend t => [kw (S "Chan"); op (S "<-"); CStmt (bty t)]     (* Chan().Op("<-").Add(T) *)
+  | TEllipsis t => [op (S "..."); CStmt (bty t)]           (* Op("...").Add(T) *)
+  | TFunc ps res => kw (S "Func") :: bsig_with bty (ps, res)          (* Func().Params(ps..) + result *)
+  | TStruct fs => [gStruct 0 (map (bfield_with bty) fs)]   (* Struct(Id(n).Add(T).Tag(kvs)..) *)
+  | TIface ms =>                                           (* Interface(Id(m).Params(ps..) + result ..) *)
+      [gInterface 0 (map (fun m => CStmt (id (fst m) :: bsig_with bty (snd m))) ms)]
   end.
 
-Definition bparam (p : param) : code := CStmt [id (fst p); CStmt (bty (snd p))].   (* Id(n).Add(T) *)
-Definition bparams (ps : list param) : code := gParams 0 (map bparam ps).          (* Params(ps..) *)
-Definition bresult (res : option ty) : list code := opt_items (fun t => [CStmt (bty t)]) res.
+Definition bparam : param -> code := bparam_with bty.            (* Id(n).Add(T) *)
+Definition bfield : field -> code := bfield_with bty.
+Definition bparams : list param -> code := bparams_with bty.     (* Params(ps..) *)
+Definition bresults : list ty -> list code := bresults_with bty.
+Definition bsig : sig -> list code := bsig_with bty.
 
 Fixpoint bexpr (e : expr) : list code :=
   match e with
@@ -385,8 +558,11 @@ Fixpoint bexpr (e : expr) : list code :=
   | ESel x sel => bexpr x ++ [op (S "."); id sel]                         (* x.Dot(sel) *)
   | EParen x => [gParens 0 [CStmt (bexpr x)]]                             (* Parens(x) *)
   | EComp t elts => bty t ++ [gValues 0 (map (fun a => CStmt (bexpr a)) elts)]    (* T.Values(elts..) *)
+  | EKeyed t pairs =>                                                     (* T.Values(Dict{k: v, ..}) *)
+      bty t ++ [gValues 0 [CDict (map (fun kv => (CStmt (bexpr (fst kv)), CStmt (bexpr (snd kv)))) pairs)]]
   | EFunc ps res body =>                                                  (* Func().Params(ps..).Add(res).Block(body..) *)
-      [kw (S "Func"); bparams ps] ++ bresult res ++ [gBlock 1 (map (fun s => CStmt (bstmt s)) body)]
+      [kw (S "Func"); bparams ps] ++ bresults res ++ [gBlock 1 (map (fun s => CStmt (bstmt s)) body)]
+  | EAssert x t => bexpr x ++ [gAssert 0 [CStmt (bty t)]]                 (* x.Assert(T) *)
   end
 with bstmt (s : stmt) : list code :=
   match s with
@@ -428,6 +604,18 @@ with bstmt (s : stmt) : list code :=
   | SVar x t e =>                                                         (* Var().Id(x).Add(T).Op("=").Add(e) *)
       [kw (S "Var"); id x] ++ opt_items (fun t => [CStmt (bty t)]) t ++
       opt_items (fun e => [op (S "="); CStmt (bexpr e)]) e
+  | SLabeled l s => [id l; op (S ":"); CStmt (bstmt s)]                   (* Id(l).Op(":").Add(s) *)
+  | SGoto l => [kw (S "Goto"); id l]                                      (* Goto().Id(l) *)
+  | SFallthrough => [kw (S "Fallthrough")]                                (* Fallthrough() *)
+  | SSend c v => bexpr c ++ [op (S "<-"); CStmt (bexpr v)]                (* c.Op("<-").Add(v) *)
+  | SSelect cls => [kw (S "Select"); gBlock 1 (map bclause cls)]          (* Select().Block(clauses..) *)
+  | STypeSwitch init bind x cls =>              (* Switch(init, Id(b).Op(":=").Add(x.Assert(Type()))).Block(clauses..) *)
+      [gSwitch 0 (opt_items (fun s => [CStmt (bstmt s)]) init ++
+                  [CStmt (match bind with
+                          | Some b => [id b; op (S ":="); CStmt (bexpr x ++ [gAssert 0 [CStmt [kw (S "Type")]]])]
+                          | None => bexpr x ++ [gAssert 0 [CStmt [kw (S "Type")]]]
+                          end)]);
+       gBlock 1 (map bclause cls)]
   end
 with bclause (c : clause) : code :=
   match c with
@@ -435,6 +623,10 @@ with bclause (c : clause) : code :=
       CStmt [gCase 0 (map (fun a => CStmt (bexpr a)) (e :: es)); gBlock 1 (map (fun s => CStmt (bstmt s)) body)]
   | CDefault body =>                                                      (* Default().Block(body..) *)
       CStmt [kw (S "Default"); gBlock 1 (map (fun s => CStmt (bstmt s)) body)]
+  | CComm s body =>                                                       (* Case(stmt).Block(body..) *)
+      CStmt [gCase 0 [CStmt (bstmt s)]; gBlock 1 (map (fun s => CStmt (bstmt s)) body)]
+  | CType t ts body =>                                                    (* Case(T..).Block(body..) *)
+      CStmt [gCase 0 (map (fun a => CStmt (bty a)) (t :: ts)); gBlock 1 (map (fun s => CStmt (bstmt s)) body)]
   end.
 
 (* Id(n).Add(T).Op("=").Add(e) *)
@@ -447,7 +639,10 @@ Definition bspec (sp : spec) : code :=
 Definition bdecl (d : decl) : list code :=
   match d with
   | DFunc name ps res body =>                      (* Func().Id(name).Params(ps..).Add(res).Block(body..) *)
-      [kw (S "Func"); id name; bparams ps] ++ bresult res ++ [gBlock 1 (map (fun s => CStmt (bstmt s)) body)]
+      [kw (S "Func"); id name; bparams ps] ++ bresults res ++ [gBlock 1 (map (fun s => CStmt (bstmt s)) body)]
+  | DMethod recv name ps res body =>               (* Func().Params(Id(r).Add(T)).Id(name).Params(ps..) + result .Block(body..) *)
+      [kw (S "Func"); bparams [recv]; id name; bparams ps] ++ bresults res ++
+      [gBlock 1 (map (fun s => CStmt (bstmt s)) body)]
   | DVars specs => [kw (S "Var"); gDefs 0 (map bspec specs)]          (* Var().Defs(specs..) *)
   | DConsts specs => [kw (S "Const"); gDefs 0 (map bspec specs)]      (* Const().Defs(specs..) *)
   | DType name t => [kw (S "Type"); id name; CStmt (bty t)]           (* Type().Id(name).Add(T) *)
@@ -488,17 +683,66 @@ Definition opt_text {A} (f : A -> str) (o : option A) : str :=
 Definition arg_list (ddd : bool) (xs : list str) : str :=
   join comma (if ddd then on_last (fun x => x ++ S " ...") xs else xs).
 
+(* The keyed elements of a composite literal, given as (key text, value text) IN THE ORDER IN
+   WHICH THEY ARE WRITTEN: nothing for no element, `k:v` for one, and for several a newline, then
+   `k:v,` and a newline for each (so the last element is followed by a comma too). *)
+Definition keyed_body (kvs : list (str * str)) : str :=
+  match kvs with
+  | [] => []
+  | [kv] => fst kv ++ S ":" ++ snd kv
+  | _ => nl ++ concat_str (map (fun kv => fst kv ++ S ":" ++ snd kv ++ S "," ++ nl) kvs)
+  end.
+
+(* The order in which keyed elements are written: sorted by the TEXT of the key (bytewise,
+   [str_leb]), elements with equal key texts in the order of the list ([isort_by] is a stable
+   insertion sort).  A Dict is a Go map: it has no order of its own. *)
+Definition sort_keyed {A} (l : list (str * A)) : list (str * A) := isort_by fst l.
+
+(* ---- signatures, over the printer of types *)
+Section CSig.
+  Variable rec : ty -> str.
+  Definition cparam_with (p : param) : str := fst p ++ sp ++ rec (snd p).
+  (* a field: name, type and - after a blank - the tag as jennifer writes it ([tag_text]: the
+     pairs key:"value" sorted by key and joined by blanks, between backquotes when
+     strconv.CanBackquote allows it, else quoted) *)
+  Definition cfield_with (f : field) : str :=
+    fd_name f ++ sp ++ rec (fd_ty f) ++ match fd_tag f with [] => [] | kvs => sp ++ tag_text kvs end.
+  Definition cparams_with (ps : list param) : str := S "(" ++ join comma (map cparam_with ps) ++ S ")".
+  (* the result, with the blank before it *)
+  Definition cresults_with (res : list ty) : str :=
+    match res with
+    | [] => []
+    | [t] => sp ++ rec t
+    | _ => S " (" ++ join comma (map rec res) ++ S ")"
+    end.
+  Definition csig_with (sg : sig) : str := cparams_with (fst sg) ++ cresults_with (snd sg).
+End CSig.
+
+(* the lines of a struct or interface type between `struct{` / `interface{` and `}` *)
+Definition type_lines (opener : str) (xs : list str) : str :=
+  opener ++ lines xs ++ (match xs with [] => [] | _ => nl end) ++ S "}".
+
 Fixpoint cty (t : ty) : str :=
   match t with
   | TName n => n
   | TPtr t => S "* " ++ cty t
   | TSlice t => S "[] " ++ cty t
   | TMap k v => S "map[" ++ cty k ++ S "] " ++ cty v
+  | TArray n t => S "[" ++ Z_to_dec n ++ S "] " ++ cty t
+  | TChan CBoth t => S "chan " ++ cty t
+  | TChan CRecv t => S "<- chan " ++ cty t
+  | TChan CSend t => S "chan <- " ++ cty t
+  | TEllipsis t => S "... " ++ cty t
+  | TFunc ps res => S "func " ++ csig_with cty (ps, res)
+  | TStruct fs => type_lines (S "struct{") (map (cfield_with cty) fs)
+  | TIface ms => type_lines (S "interface{") (map (fun m => fst m ++ sp ++ csig_with cty (snd m)) ms)
   end.
 
-Definition cparam (p : param) : str := fst p ++ sp ++ cty (snd p).
-Definition cparams (ps : list param) : str := S "(" ++ join comma (map cparam ps) ++ S ")".
-Definition cresult (res : option ty) : str := opt_text (fun t => sp ++ cty t) res.
+Definition cparam : param -> str := cparam_with cty.
+Definition cfield : field -> str := cfield_with cty.
+Definition cparams : list param -> str := cparams_with cty.
+Definition cresults : list ty -> str := cresults_with cty.
+Definition csig : sig -> str := csig_with cty.
 
 Fixpoint cexpr (e : expr) : str :=
   match e with
@@ -517,7 +761,10 @@ Fixpoint cexpr (e : expr) : str :=
   | ESel x sel => cexpr x ++ S " . " ++ sel
   | EParen x => S "(" ++ cexpr x ++ S ")"
   | EComp t elts => cty t ++ S " {" ++ join comma (map cexpr elts) ++ S "}"
-  | EFunc ps res body => S "func " ++ cparams ps ++ cresult res ++ sp ++ braces (map cstmt body)
+  | EKeyed t pairs =>
+      cty t ++ S " {" ++ keyed_body (sort_keyed (map (fun kv => (cexpr (fst kv), cexpr (snd kv))) pairs)) ++ S "}"
+  | EFunc ps res body => S "func " ++ cparams ps ++ cresults res ++ sp ++ braces (map cstmt body)
+  | EAssert x t => cexpr x ++ S " .(" ++ cty t ++ S ")"
   end
 with cstmt (s : stmt) : str :=
   match s with
@@ -551,11 +798,21 @@ with cstmt (s : stmt) : str :=
   | SGo f args ddd => S "go " ++ cexpr f ++ S " (" ++ arg_list ddd (map cexpr args) ++ S ")"
   | SDefer f args ddd => S "defer " ++ cexpr f ++ S " (" ++ arg_list ddd (map cexpr args) ++ S ")"
   | SVar x t e => S "var " ++ x ++ opt_text (fun t => sp ++ cty t) t ++ opt_text (fun e => S " = " ++ cexpr e) e
+  | SLabeled l s => l ++ S " : " ++ cstmt s
+  | SGoto l => S "goto " ++ l
+  | SFallthrough => S "fallthrough"
+  | SSend c v => cexpr c ++ S " <- " ++ cexpr v
+  | SSelect cls => S "select " ++ braces (map cclause cls)
+  | STypeSwitch init bind x cls =>
+      S "switch " ++ opt_text (fun s => cstmt s ++ S ";") init ++ opt_text (fun b => b ++ S " := ") bind ++
+      cexpr x ++ S " .(type)" ++ sp ++ braces (map cclause cls)
   end
 with cclause (c : clause) : str :=
   match c with
   | CCase e es body => S "case " ++ join comma (map cexpr (e :: es)) ++ S ": " ++ lines (map cstmt body)
   | CDefault body => S "default: " ++ lines (map cstmt body)
+  | CComm s body => S "case " ++ cstmt s ++ S ": " ++ lines (map cstmt body)
+  | CType t ts body => S "case " ++ join comma (map cty (t :: ts)) ++ S ": " ++ lines (map cstmt body)
   end.
 
 Definition cspec (s : spec) : str :=
@@ -565,7 +822,9 @@ Definition cspec (s : spec) : str :=
 
 Definition cdecl (d : decl) : str :=
   match d with
-  | DFunc name ps res body => S "func " ++ name ++ sp ++ cparams ps ++ cresult res ++ sp ++ braces (map cstmt body)
+  | DFunc name ps res body => S "func " ++ name ++ sp ++ cparams ps ++ cresults res ++ sp ++ braces (map cstmt body)
+  | DMethod recv name ps res body =>
+      S "func " ++ cparams [recv] ++ sp ++ name ++ sp ++ cparams ps ++ cresults res ++ sp ++ braces (map cstmt body)
   | DVars specs => S "var " ++ parens_lines (map cspec specs)
   | DConsts specs => S "const " ++ parens_lines (map cspec specs)
   | DType name t => S "type " ++ name ++ sp ++ cty t
@@ -574,3 +833,22 @@ Definition cdecl (d : decl) : str :=
 (* package clause, an empty line, then a newline before every declaration; no imports *)
 Definition cfile (name : str) (ds : list decl) : str :=
   S "package " ++ name ++ nl ++ nl ++ lines (map cdecl ds).
+
+(* ================================================================== keyed elements: order *)
+(* The keyed elements of a literal in the order in which they are written (Proofs/CanonProofs.v,
+   keyed_canon_sorted: the text of EKeyed t pairs is that of EKeyed t (keyed_sorted pairs), and
+   [keyed_sorted pairs] is a permutation of [pairs]). *)
+Definition keyed_sorted (pairs : list (expr * expr)) : list (expr * expr) :=
+  isort_by (fun kv => cexpr (fst kv)) pairs.
+
+Fixpoint distinct_strs (l : list str) : bool :=
+  match l with
+  | a :: r => negb (existsb (str_eqb a) r) && distinct_strs r
+  | [] => true
+  end.
+
+(* The key texts of the literal are pairwise distinct.  NOT a hypothesis of render = canon (the
+   model lists the pairs of a Dict in iteration order and the sort is stable); it is what makes
+   the text independent of that order, i.e. of Go's map iteration (keyed_canon_perm). *)
+Definition keys_ok (pairs : list (expr * expr)) : bool :=
+  distinct_strs (map (fun kv => cexpr (fst kv)) pairs).
